@@ -325,7 +325,10 @@ impl WriteAheadLog {
 
         // Try to write to block zero first
         if self.current_block.is_none() {
-            if self.header.available_space() >= record_size {
+            // Block zero may only take records while it is the last block of the log: once later
+            // blocks exist, a record placed here would be read back before older records.
+            let only_block_zero = self.flushed_blocks <= 1 && self.flush_queue.is_empty();
+            if only_block_zero && self.header.available_space() >= record_size {
                 self.header.try_push(lsn, record)?;
                 return Ok(());
             }
